@@ -15,7 +15,9 @@ from engine.report import site_of
 from . import common, builders, classes, kvp, c06
 
 R_, HASANTA, CHANDRA, ZWJ, ZWNJ, LENGTH_MARK, OU = "র", "্", "ঁ", "‍", "‌", "ৗ", "ঔ"
-TABLE = {s: chr(ord(s) - 0x38) for s in classes.SIGNS10}          # Unicode's own sign ↔ independent vowel pairing
+PAIRS = {s: chr(ord(s) - 0x38) for s in classes.SIGNS10}          # Unicode's own sign ↔ independent vowel pairing …
+PAIRS.update({"\u09c4": "\u09e0", "\u09e2": "\u098c", "\u09e3": "\u09e1"})      # … the Sanskrit signs are paired out of line: ৄ ↔ ৠ, ৢ ↔ ঌ, ৣ ↔ ৡ
+TABLE = dict(PAIRS)      # rows demanded: narrowed in run() to the signs the vowel-sign predicate accepts (at least the ten); rows allowed: every pair
 CORE_MARKS = set(".,;:?!()[]{}/-\"")
 
 
@@ -230,7 +232,7 @@ def table_effect(v, after_hasanta):
                 if tab is None:
                     raise Undecided("the rows of the sign table %s (cannot be evaluated as a finite map)" % a[1].split("::")[-1])
                 which = "hasanta+sign" if after_hasanta else "automatic-vowel"
-                missing = [s for s in TABLE if s not in tab]
+                missing = [s for s in sorted(REQUIRED) if s not in tab]
                 if missing:
                     raise Mismatch("the sign(s) %s have no row in the %s table" % (" ".join("U+%04X" % ord(m) for m in missing), which))
                 wrong = [s for s in tab if tab[s] != TABLE.get(s)]
@@ -242,18 +244,31 @@ def table_effect(v, after_hasanta):
         raise Undecided("which vowel sign was typed (no match on the character)")
     allv, val = cs
     if val == "otherwise":
-        missing = [s for s in TABLE if ord(s) not in allv]
+        missing = [s for s in sorted(REQUIRED) if ord(s) not in allv]
         if missing:
             raise Mismatch("the sign(s) %s have no row in the %s table" % (" ".join("U+%04X" % ord(m) for m in missing), "hasanta+sign" if after_hasanta else "automatic-vowel"))
         return []
     outs = {TABLE.get(chr(c)) for c in val}
     if len(outs) != 1 or None in outs:
-        raise Mismatch("row for %s is not one of the ten signs" % [hex(c) for c in val])
+        raise Mismatch("row for %s is not a vowel sign with an independent vowel of its own" % [hex(c) for c in val])
     return ([("pop",)] if after_hasanta else []) + [("push", outs.pop())]
 
 
 class Mismatch(Exception):
     pass
+
+
+REQUIRED = set(classes.SIGNS10)
+
+
+def set_required(prog):
+    try:
+        kset = classes.class_sets(prog)[0].get("is_kar")
+        REQUIRED.clear()
+        REQUIRED.update(set(classes.SIGNS10) | ({c for c in kset[1] if c in PAIRS} if kset else set()))
+    except Exception:
+        REQUIRED.clear()
+        REQUIRED.update(PAIRS)
 
 
 def same_effects(a, b):
@@ -286,6 +301,8 @@ def run(ctx):
     chk.not_decided = ["key values of several code points that start with a vowel sign (only their first character is considered by the rules)",
                        "behaviour with the old vowel-sign order option on (C14) and the reph algorithm itself (C13)"]
     mods = ctx.memo("modsets", lambda: ModSets(prog))
+    # a sign the vowel-sign predicate accepts takes the vowel-sign rules, so it needs its row in both sign → vowel tables (else the key types nothing)
+    set_required(prog)
     try:
         b, S, info = ctx.memo("kvp", lambda: kvp.summarise(prog))
     except PathLimit as e:
